@@ -49,7 +49,15 @@ func verifSetFreezeRealTimers(b bool) { verifFreezeRealTimers = b }
 
 do("proc.go", [
     ("const forcePreemptNS = 10 * 1000 * 1000 // 10ms", "const forcePreemptNS = 3600 * 1000 * 1000 * 1000 // verif: 1h"),
+    ("func execute(gp *g, inheritTime bool) {\n\tmp := getg().m\n", "func execute(gp *g, inheritTime bool) {\n\tverifExecTicks++\n\tmp := getg().m\n"),
 ], append="""
+// verif: number of times any goroutine was given the processor (single P: a plain counter). A process
+// whose count stands still is blocked for good; the simulator's wedge watcher reads it.
+var verifExecTicks uint64
+
+//go:linkname verifExecTickCount
+func verifExecTickCount() uint64 { return verifExecTicks }
+
 // verif: identity of the calling goroutine, for the simulator's cooperative yield points.
 //
 //go:linkname verifGoid
